@@ -55,15 +55,19 @@ def gen_leaf(rng, p):
 
 
 def gen_val(rng, desc, ty, depth=2, none_p=0.15):
-    """a value of declared type ty that every wire form carries unchanged: no empty text, no None
-    inside arrays, no object whose fields are all None"""
+    """a value of declared type ty that every wire form carries unchanged: no empty text, no object
+    whose fields are all None (sequences may contain None items)"""
     if rng.random() < none_p:
         return ('none',)
     if ty[0] == 'prim':
         return gen_leaf(rng, ty[1])
     if ty[0] == 'arr':
-        n = rng.randint(0, 3) if depth > 0 else 0
-        return ('list', [x for x in (gen_val(rng, desc, ty[1], depth - 1, 0.0) for _ in range(n)) if x != ('none',)])
+        n = rng.randint(0, 4) if depth > 0 else 0
+        # a sequence may have holes: None items travel as xsi:nil elements / JSON nulls and must
+        # arrive at their position (every third sequence or so has some)
+        hole_p = 0.35 if rng.random() < 0.35 else 0.0
+        return ('list', [('none',) if rng.random() < hole_p else gen_val(rng, desc, ty[1], depth - 1, 0.0)
+                         for _ in range(n)])
     cid = ty[1]
     fs = UV.flat_fields(desc, cid)
     vals = [gen_val(rng, desc, f['ty'], depth - 1, 0.25 if depth > 0 else 0.6) for f in fs]
@@ -379,8 +383,11 @@ def x_value(svc, tag, ty, v):
     elif ty[0] == 'arr':
         for it in v[1]:
             c = x_value(svc, ty_name(svc.desc, ty[1]), ty[1], it)
-            if c is not None:
-                e.append(c)
+            if c is None:
+                # a None item keeps its position: <item xsi:nil="true"/>
+                c = etree.Element(NS + ty_name(svc.desc, ty[1]))
+                c.set('{%s}nil' % XSI, 'true')
+            e.append(c)
     else:
         for f, fv in zip(UV.flat_fields(svc.desc, v[1]), v[2]):
             c = x_value(svc, f['name'], f['ty'], fv)
@@ -1200,7 +1207,7 @@ def run(check):
     check.assumptions = [
         'codec_carries: the protocol codec returns the request and response message values of the call unchanged '
         '(XML / SOAP / dict-document fidelity is C01 / C02; generated values avoid the identifications those make: '
-        'empty text, None inside arrays, objects with every field None)',
+        'empty text, objects with every field None; None items inside sequences ARE generated)',
         'the user function is a total function of the header and argument list it is entered with; Redirect '
         'exceptions, auxiliary method contexts (cnt > 0), @mrpc methods, async (Deferred) results and push/streaming '
         'output are outside the model',
@@ -1241,6 +1248,21 @@ def run(check):
                     vals = [gen_val(rng, svc.desc, t, none_p=0.0) for t in tys]
                     for plan in (('ignored', ('text', 'xyz')), ('fault',) + FAULTS[2], ('exc',)):
                         one_call(check, svc, dc, vals[:1], list(zip(names, vals))[1:], [], plan, cases, st, True)
+                    # sequences with holes, on every run: a None item keeps its position in a list / generator
+                    # result and in a list argument (leading, inner and trailing holes)
+                    r = dc['returns']
+                    if isinstance(r, tuple) and r[0] == 'arr':
+                        items = [gen_val(rng, svc.desc, r[1], none_p=0.0) for _ in range(3)]
+                        items = [x for x in items if x != ('none',)] or [('none',)]
+                        holes = [('none',), items[0], ('none',)] + items[1:] + [('none',)]
+                        for plan in (('ret', ('list', holes)), ('gen', holes), ('ret', ('list', [('none',)]))):
+                            one_call(check, svc, dc, vals[:1], list(zip(names, vals))[1:], [], plan, cases, st, True)
+                    for i, t in enumerate(tys):
+                        if t[0] == 'arr':
+                            it = gen_val(rng, svc.desc, t[1], none_p=0.0)
+                            hv = list(vals)
+                            hv[i] = ('list', [('none',), it, ('none',), it])
+                            one_call(check, svc, dc, hv, [], [], gen_plan(rng, svc, dc), cases, st, True)
                 kw_positional(check, svc, dc)
             malformed_calls(check, svc, dc, cases, st)
         unknown_method(check, svc, cases)
